@@ -519,26 +519,18 @@ type gset struct {
 // drawn glyphs arranged by a drawn periodic pattern, so that the number of
 // rapid draws stays bounded.
 func genSet(t *rapid.T, thorough bool) *gset {
-	var class string
-	k := rapid.IntRange(0, 199).Draw(t, "setClass")
-	switch {
-	case k < 20:
-		class = "n=1"
-	case k < 90:
-		class = "n=2..8"
-	case k < 160:
-		class = "n=9..60"
-	case k < 186:
-		class = "n=61..300"
-	case k < 194:
-		class = "n=1000..5000"
-	case k < 197:
-		class = "big-glyphs"
-	default:
-		class = "n=65535"
-	}
-	if thorough && k >= 150 && k < 160 {
-		class = "big-glyphs"
+	// rapid's integer draws favour small values, so the frequent classes
+	// come first; the expensive classes are gated a second time in the quick
+	// tier.
+	class := rapid.SampledFrom([]string{
+		"n=2..8", "n=9..60", "n=9..60", "n=2..8", "n=1", "n=61..300", "n=9..60", "n=2..8",
+		"n=61..300", "n=1000..5000", "big-glyphs", "n=65535", "n=9..60", "n=2..8", "big-glyphs", "n=9..60",
+	}).Draw(t, "setClass")
+	switch class {
+	case "n=1000..5000", "big-glyphs", "n=65535":
+		if !thorough && rapid.IntRange(0, 3).Draw(t, "expensive") != 3 {
+			class = "n=9..60"
+		}
 	}
 	s := &gset{class: class}
 	var n int
@@ -625,7 +617,7 @@ func fillerGlyph(n int, odd bool, seed byte) *mglyph {
 	if err != nil {
 		panic(err)
 	}
-	return &mglyph{g: &refglyf.Glyph{NumContours: 0, Simple: s, Body: body}}
+	return &mglyph{enc: &refglyf.Encoding{}, g: &refglyf.Glyph{NumContours: 0, Simple: s, Body: body}}
 }
 
 // toLib converts the model to the library's representation.  Slices are
